@@ -3,8 +3,8 @@ use std::collections::HashSet;
 use crate::parser::node::ParserNode;
 
 use super::{
-    BasicType, BranchType, Imm, InstructionProperties, JumpLinkRType, LabelStringToken, Register,
-    RegisterToken,
+    BasicType, BranchType, Imm, InstructionProperties, JumpLinkRType, LabelStringToken, LoadType,
+    Register, RegisterToken, StoreType,
 };
 impl InstructionProperties for ParserNode {
     fn is_return(&self) -> bool {
@@ -31,10 +31,19 @@ impl InstructionProperties for ParserNode {
         }
     }
 
-    fn stores_to_memory(&self) -> Option<(Register, (Register, Imm))> {
+    fn stores_to_memory(&self) -> Option<(Register, (Register, Imm), u8)> {
         match self {
-            ParserNode::Store(x) if x.rs2 != Register::X0 => {
-                Some((x.rs2.get_cloned(), (x.rs1.get_cloned(), x.imm.get_cloned())))
+            ParserNode::Store(x) => {
+                let width = match x.inst.get() {
+                    StoreType::Sb => 1,
+                    StoreType::Sh => 2,
+                    StoreType::Sw => 4,
+                };
+                Some((
+                    x.rs2.get_cloned(),
+                    (x.rs1.get_cloned(), x.imm.get_cloned()),
+                    width,
+                ))
             }
             _ => None,
         }
@@ -42,7 +51,8 @@ impl InstructionProperties for ParserNode {
 
     fn reads_from_memory(&self) -> Option<((Register, Imm), Register)> {
         match self {
-            ParserNode::Load(x) => {
+            // Only a word load reads back the whole value that was stored
+            ParserNode::Load(x) if matches!(x.inst.get(), LoadType::Lw) => {
                 Some(((x.rs1.get_cloned(), x.imm.get_cloned()), x.rd.get_cloned()))
             }
             _ => None,
